@@ -36,7 +36,9 @@ CLAIMED.update({
               "and scalars; a refinement theorem shows every non-string operation of the model of the code is one step "
               "of a finite-map specification (`Key -> Option Int`), and uniqueness of keys is an invariant of every "
               "public operation.  Operands-unchanged and agreement of the operator forms are theorems about the "
-              "register machine.  Tied to the code by differential execution over all nine operand pairings."),
+              "register machine.  Props/C04I32.lean: which operators compute no out-of-range intermediate when the result fits i32 "
+              "(+, *, unary -, and - since the D31 fix), with witnesses for the old subtraction and for the constructors' running "
+              "totals (known finding D32).  Tied to the code by differential execution over all nine operand pairings."),
         design_ref="§7.4",
         note=NOTE_COMMON + " i32 overflow excluded by the property; HashMap iteration order is unobservable in the model (entries compared sorted).",
         technique="Lean 4 refinement proof to a finite-map spec + differential correspondence"),
@@ -45,7 +47,8 @@ CLAIMED.update({
               "(list, map, enum-wrapped) stay equal under every public operation and every read returns the same "
               "value — lifted to histories of any length; conversions preserve every entry; `==` holds iff same keys "
               "with same counts (pigeonhole via Batteries); bracket-free string keys never read or write a "
-              "fixed-isotope entry.  The same histories are run on the four real forms in lock-step and compared "
+              "fixed-isotope entry; lockstep_trace: every value read and every panic flag along two runs agree, for histories of "
+              "any length.  The same histories are run on the four real forms in lock-step and compared "
               "with each other, the model and the spec."),
         design_ref="§7.6",
         note=NOTE_COMMON + " The lock-step theorem assumes plain keys present in a composition are table symbols (true of every key the API can create from the table).",
@@ -146,7 +149,9 @@ CLAIMED.update({
     "C11": dict(
         text=("Model of convolve_with / convolve_pow (repeated squaring with remainder recursion) / isotopic_convolution "
               "over exact rationals and the specification `arrangements` (every ordered assignment of an isotope to each "
-              "atom); theorems in Props/C11.lean.  Correspondence: the real peak list is compared as a sorted multiset "
+              "atom); theorems in Props/C11.lean and, for a positive threshold at the level of the whole function, Props/C11T.lean "
+              "(exactly the arrangements of probability >= t, renormalised; needs abundances summing to at most 1 — counterexample "
+              "proved, hypothesis discharged for the compiled table in Inst/C11.lean).  Correspondence: the real peak list is compared as a sorted multiset "
               "with the model at the same threshold and with the exact enumeration (threshold 0: equality; threshold t: "
               "completeness above t, ratios, floor), on compositions that exercise every branch of the power loop."),
         design_ref="§7.11",
@@ -193,7 +198,8 @@ CLAIMED.update({
               "the Rust-API models (formula parser, element-specification parser, enum composition).  Theorems: no call "
               "within the contract aborts (lifted from parse_no_panic and spec_no_panic), a non-zero code leaves the handle "
               "table untouched with a null out-pointer, parse_formula yields a handle exactly when the parser accepts, "
-              "mass/get are the composition's, handle bookkeeping balances.  Correspondence: call sequences up to length 40 "
+              "mass/get are the composition's; Props/C17Handles.lean: the handle table keeps pairwise distinct live handles below the "
+              "next handle along call sequences of any length, alloc issues a fresh handle, free removes exactly one.  Correspondence: call sequences up to length 40 "
               "with valid, malformed and non-UTF-8 byte strings through the real extern \"C\" functions in a child process; "
               "return code, out-pointer and mass + six probe reads of every live handle compared after every call; every "
               "sequence is replayed in a build of the harness under AddressSanitizer + LeakSanitizer (nightly "
